@@ -1,5 +1,7 @@
 import GodiProofs.Container.Close
 import GodiProofs.Container.Instances
+import GodiProofs.Container.Drain
+import GodiProofs.Container.BuildLedger
 /-!
 # C10 — Every disposable instance is closed exactly once, never early, never leaked (sequential)
 
@@ -8,6 +10,12 @@ to (the scope it was created through, or the provider's list for singletons); `C
 list (setting it to `none`, so nothing can be drained twice) and logs one `closed` event per element.
 The overlap clause (construction racing a Close) is `C10_exactly_once_conc` / `C10_not_early_conc`
 of the interleaving model M6.
+
+The global statement (all histories, all fault patterns): `Container/Ledger.lean` proves that the
+*disposal ledger* — every instance id in at most one disposal list and at most once, no `closed`
+event while listed, never more than one `closed` event — is an invariant of every operation, and
+that being *owed* (listed, or closed exactly once) is never lost; `Container/Drain.lean` proves that
+`Provider.Close` leaves every list empty. Together: `exactly_once_over_histories`, `never_leaked`.
 -/
 namespace Godi.Props.C10
 open Godi.Container
@@ -57,18 +65,109 @@ theorem failed_scope_creation_is_closed (beh : Beh) (st : State) (parent : Optio
 /-- FAILED BUILD: when a singleton constructor fails, Build closes the partially created provider —
 root scope first, then the singletons created so far -/
 theorem failed_build_is_cleaned_up (beh : Beh) (descs : List Desc) (order : List Nat) (e : Err)
-    (h : (createSingletons beh (newScope beh { descs := descs } none 0 false).1 order).2 = .error e) :
+    (h : (createSingletons beh (newScope beh { descs := descs, next := firstFresh descs } none 0 false).1 order).2 = .error e) :
     (buildRuntime beh descs order).1 =
-      (closeProvider beh id (createSingletons beh (newScope beh { descs := descs } none 0 false).1 order).1).1 := by
+      (closeProvider beh id (createSingletons beh (newScope beh { descs := descs, next := firstFresh descs } none 0 false).1 order).1).1 := by
   unfold buildRuntime
-  have hn : newScope beh { descs := descs } none 0 false = (allocScope { descs := descs } none 0, .ok 0) := by
+  have hn : newScope beh { descs := descs, next := firstFresh descs } none 0 false = (allocScope { descs := descs, next := firstFresh descs } none 0, .ok 0) := by
     unfold newScope; simp
   simp only [hn] at h ⊢
-  generalize createSingletons beh (allocScope { descs := descs } none 0) order = r at h
+  generalize createSingletons beh (allocScope { descs := descs, next := firstFresh descs } none 0) order = r at h
   obtain ⟨st2, res⟩ := r
   simp only [] at h
   subst h
   rfl
+
+/-! ### the global statement -/
+
+/-- EXACTLY ONCE, OVER ALL HISTORIES: from any state that satisfies the ledger, after any history of
+resolutions, group resolutions, scope creations (whose initializers may fail) and scope closes — with
+constructors failing or panicking and `Close` methods failing wherever `beh` says — the ledger holds
+again: no instance has more than one `closed` event, none that is still listed has been closed,
+no instance is listed twice; and whatever was owed before is still owed -/
+theorem exactly_once_over_histories (beh : Beh) (st : State) (ops : List Op) (wf : WF st.descs)
+    (is : InstSingleton st.descs) (i : InitOK st) (L : Ledger st) (hv : ValidHistL beh st ops) :
+    Ledger (run beh st ops) ∧ (∀ j, Owed st j → Owed (run beh st ops) j) ∧
+    (∀ j, closedCount (run beh st ops).log j ≤ 1) :=
+  ⟨(ledger_run beh ops st wf is i L hv).ledger, (ledger_run beh ops st wf is i L hv).mono,
+   (ledger_run beh ops st wf is i L hv).ledger.once⟩
+
+/-- a disposable scoped/transient instance enters the ledger the moment it is created: it is owed -/
+theorem created_is_owed (st : State) (L : Ledger st) (s : Nat) (d : Desc) (k : Ident) (j : Inst)
+    (hl : d.life ≠ .singleton) (hs : s < st.nscopes) (hf : Fresh st j) (hj : j < st.next) (hd : d.disp = true) :
+    Owed (setInstance st s d k (.inst j)).1 j :=
+  (setInstance_ns_lstep st L s d k j hl hs hf hj).2.2.2.2 hd
+
+/-- ... also every secondary output of a multi-output constructor -/
+theorem outputs_are_owed (st : State) (L : Ledger st) (s : Nat) (sibs : List Desc) (outs : List Inst)
+    (hs : s < st.nscopes) (hl : ∀ d ∈ sibs, d.life ≠ .singleton) (hnd : outs.Nodup)
+    (hf : ∀ o ∈ outs, Fresh st o ∧ o < st.next) :
+    ∀ p ∈ sibs.zip outs, p.1.disp = true → Owed (storeOuts st s sibs outs).1 p.2 :=
+  (storeOuts_lstep s sibs outs st L hs hl hnd hf).2
+
+/-- NEVER LEAKED, NEVER TWICE: take any state of an open provider that satisfies the ledger and is
+tidy, run any history, then `Provider.Close` (visiting its scope table in any order): every instance
+that was owed at the beginning or at the end of the history has exactly one `closed` event, and
+no instance at all has more than one -/
+theorem never_leaked (beh : Beh) (st : State) (ops : List Op) (order : List Nat → List Nat)
+    (hord : ∀ l x, x ∈ l → x ∈ order l) (wf : WF st.descs) (is : InstSingleton st.descs) (i : InitOK st)
+    (L : Ledger st) (T : Tidy st) (hopen : st.disposed = false) (hv : ValidHistL beh st ops) :
+    (∀ j, Owed st j ∨ Owed (run beh st ops) j → closedCount (closeProvider beh order (run beh st ops)).1.log j = 1) ∧
+    (∀ j, closedCount (closeProvider beh order (run beh st ops)).1.log j ≤ 1) := by
+  have h1 := ledger_run beh ops st wf is i L hv
+  obtain ⟨T1, d1⟩ := tidy_run beh ops st wf i T
+  have h2 := ledger_closeProvider beh order (run beh st ops) h1.ledger
+  have hnone := closeProvider_all_closed beh order hord (run beh st ops) h1.ledger T1 (d1.trans hopen)
+  refine ⟨?_, h2.ledger.once⟩
+  intro j hj
+  have : Owed (run beh st ops) j := hj.elim (h1.mono j) id
+  rcases h2.mono j this with h | h
+  · exact absurd h (hnone j)
+  · exact h
+
+/-- NOT EARLY (scope-level): a scope's `Close` logs `closed` events only for instances of its own
+list and of the lists of the scopes it closes with it: whatever is listed elsewhere stays listed
+and unclosed (in particular the provider's singletons and every other scope's instances) -/
+theorem close_touches_only_its_own (beh : Beh) (order : List Nat → List Nat) (f : Nat) (st : State) (s : Nat)
+    (L : Ledger st) : Ledger (closeScope beh order f st s).1 ∧
+    ∀ j, Tracked (closeScope beh order f st s).1 j → closedCount (closeScope beh order f st s).1.log j = 0 :=
+  ⟨((ledger_close beh order f).1 st s L).ledger, ((ledger_close beh order f).1 st s L).ledger.pending⟩
+
+/-- BUILD ESTABLISHES THE LEDGER; A FAILED BUILD LEAVES NOTHING BEHIND: for every registry with the
+collection's structural guarantees (instance values registered as singletons, one registration per
+value), every constructor behaviour and every creation order, the state `Build` returns satisfies the
+ledger; on success it is an open, tidy provider; on failure no disposal list holds anything any more —
+everything the partial Build created and owned has been closed exactly once -/
+theorem build_then_ledger (beh : Beh) (descs : List Desc) (order : List Nat) (wf : WF descs) (rw' : RegWF descs)
+    (is : InstSingleton descs) (idist : InstDistinct descs) :
+    Ledger (buildRuntime beh descs order).1 ∧
+    (∀ j, closedCount (buildRuntime beh descs order).1.log j ≤ 1) ∧
+    (∀ e, (buildRuntime beh descs order).2 = .error e → ∀ j, ¬ Tracked (buildRuntime beh descs order).1 j) :=
+  ⟨(build_ledger beh descs order wf rw' is idist).1, (build_ledger beh descs order wf rw' is idist).1.once,
+   (build_ledger beh descs order wf rw' is idist).2.2⟩
+
+/-- THE WHOLE LIFE CYCLE: Build (any creation order), then any history of resolutions, scope
+creations and closes (any faults), then `Provider.Close` (any visiting order): no instance has more
+than one `closed` event, every instance owed at the end of the history has exactly one, and no
+disposal list holds anything -/
+theorem whole_lifecycle (beh : Beh) (descs : List Desc) (order : List Nat) (ops : List Op)
+    (corder : List Nat → List Nat) (hord : ∀ l x, x ∈ l → x ∈ corder l)
+    (wf : WF descs) (rw' : RegWF descs) (is : InstSingleton descs) (idist : InstDistinct descs)
+    (hok : (buildRuntime beh descs order).2 = .ok ())
+    (hv : ValidHistL beh (buildRuntime beh descs order).1 ops) :
+    (∀ j, closedCount (closeProvider beh corder (run beh (buildRuntime beh descs order).1 ops)).1.log j ≤ 1) ∧
+    (∀ j, Owed (run beh (buildRuntime beh descs order).1 ops) j →
+      closedCount (closeProvider beh corder (run beh (buildRuntime beh descs order).1 ops)).1.log j = 1) ∧
+    (∀ j, ¬ Tracked (closeProvider beh corder (run beh (buildRuntime beh descs order).1 ops)).1 j) := by
+  obtain ⟨L, hsucc, _⟩ := build_ledger beh descs order wf rw' is idist
+  obtain ⟨T, hopen, hdescs, hinit, _⟩ := hsucc hok
+  have wf' : WF (buildRuntime beh descs order).1.descs := by rw [hdescs]; exact wf
+  have is' : InstSingleton (buildRuntime beh descs order).1.descs := by rw [hdescs]; exact is
+  obtain ⟨h1, h2⟩ := never_leaked beh _ ops corder hord wf' is' hinit L T hopen hv
+  refine ⟨h2, fun j hj => h1 j (Or.inr hj), ?_⟩
+  have hr := ledger_run beh ops _ wf' is' hinit L hv
+  obtain ⟨T1, d1⟩ := tidy_run beh ops _ wf' hinit T
+  exact closeProvider_all_closed beh corder hord _ hr.ledger T1 (d1.trans hopen)
 
 def ex : List Desc :=
   [{ id := 0, ident := ⟨3, 0, 0⟩, life := .singleton, ctor := 1, kind := .plain, deps := [], disp := true },
@@ -78,5 +177,21 @@ def ex : List Desc :=
 example : let st := (providerCreateScope {} (buildRuntime {} ex [0]).1 0).1
     ((closeProvider {} id (scopeGet {} st 1 5 0).1).1.log.filter (fun e => match e with | .closed _ _ _ => true | _ => false)) =
       [.closed 1 3 true, .closed 1 2 true, .closed providerOwner 1 true] := by decide
+
+/-- non-vacuity of the global theorems: the state reached by building `ex`, opening a scope and
+resolving the transient (which creates the scoped service too) meets their hypotheses, two instances
+are owed there, and after `Provider.Close` each of the three disposable instances has exactly one
+`closed` event -/
+example : let st := (scopeGet {} (providerCreateScope {} (buildRuntime {} ex [0]).1 0).1 1 5 0).1
+    (dispOf st 1 = [2, 3] ∧ provD st = [1] ∧ st.disposed = false ∧ st.provScopes = some [1]) ∧
+    (closedCount (closeProvider {} id st).1.log 1, closedCount (closeProvider {} id st).1.log 2,
+     closedCount (closeProvider {} id st).1.log 3, closedCount (closeProvider {} id st).1.log 4) = (1, 1, 1, 0) := by
+  decide
+
+/-- the structural hypotheses of `build_then_ledger` / `whole_lifecycle` are satisfiable -/
+example : WF ex ∧ RegWF ex ∧ InstSingleton ex ∧ InstDistinct ex ∧
+    (match (buildRuntime {} ex [0]).2 with | .ok _ => true | .error _ => false) = true := by
+  refine ⟨⟨?_, ?_⟩, ⟨?_, ?_, ?_, ?_, ?_, ?_⟩, ?_, ?_, by decide⟩ <;>
+    simp [SibLife, ex, findDesc, InstSingleton, InstDistinct] <;> decide
 
 end Godi.Props.C10
